@@ -128,7 +128,7 @@ func TestVerifC22Cluster(t *testing.T) {
 			t.Fatal(err)
 		}
 		for _, f := range []string{"f", "g"} {
-			if _, err := c[0].API.CreateField(ctx, "i", f, pilosa.OptFieldTypeSet(pilosa.CacheTypeRanked, 100)); err != nil {
+			if _, err := vrcCreateField(c[0].API, "i", f, pilosa.OptFieldTypeSet(pilosa.CacheTypeRanked, 100)); err != nil {
 				t.Fatal(err)
 			}
 		}
